@@ -24,7 +24,7 @@ use zipora::memory::{MmapVec, MmapVecConfig, MmapVecConfigBuilder};
 mod breadth;
 
 const HEADER: &str = r#"From ZV.Common Require Import Base Run.
-From ZV.C10 Require Import Model ModelValVec32 ModelArena ModelStrVec ModelFixedLen ModelFastVecCopy ModelCases.
+From ZV.C10 Require Import Model ModelValVec32 ModelArena ModelStrVec ModelFixedLen ModelFastVecCopy ModelCacheVec ModelBitPacked ModelRingBulk ModelCases.
 Open Scope N_scope.
 "#;
 
@@ -316,6 +316,55 @@ fn ring_history(cx: &mut Ctx, cap0: u64, ctor: u64, ops: &[Vec<u64>], coq: Coq) 
     if wrapped_growth { cx.sum.dist("ring_growth_while_wrapped"); }
     if !failed && (coq == Coq::Always || (coq == Coq::Budget && cx.room(cell))) {
         cx.shards.push(format!("C0 (CRing {} [{}] [{}])", cap0, coq_ops.join("; "), expect.join("; ")), cj);
+    }
+}
+
+/// AutoGrowCircularQueue::pop_bulk into a slice whose values are identified (M+S: coq/C10/ModelRingBulk.v): `rot` push/pop pairs put
+/// the head at an offset, `fill` elements are pushed (in bulk when `bulk`), then pop_bulk into a slice of `m` counted values. Compared:
+/// the number returned, the slice afterwards, the values destroyed by the call (each overwritten value once, none of the others),
+/// len / capacity / head / tail; afterwards everything is dropped and nothing may stay alive.
+fn ring_into_case(cx: &mut Ctx, cap0: u64, rot: u64, fill: u64, bulk: bool, m: u64, coq: Coq) {
+    let cell = "AutoGrowCircularQueue";
+    let (rot, fill, m) = (rot.min(64), fill.min(64), m.min(64));
+    cx.sum.eval(cell, &format!("ring_into {} {} {} {} {}", cap0, rot, fill, bulk, m), true);
+    let cj = json!({"cell": "ring_into", "cap": cap0, "rot": rot, "fill": fill, "bulk": bulk, "m": m});
+    if journal(&cj) { return; }
+    reset_counters();
+    let mut next_id: u64 = 0;
+    let mut coq_ops: Vec<String> = vec![];
+    let r = guarded(|| -> Result<String, String> {
+        let mut q: AutoGrowCircularQueue<El> = AutoGrowCircularQueue::with_capacity(cap0 as usize);
+        let mut shadow: VecDeque<u64> = VecDeque::new();
+        for _ in 0..rot { let id = next_id; next_id += 1; coq_ops.push(format!("TQ (PushBack {})", id)); coq_ops.push("TQ PopFront".into());
+            q.push_back(el(id)).map_err(|e| format!("push_back refused: {:?}", e))?; if q.pop_front().map(|e| e.id) != Some(id) { return Err("pop_front of the only element differs".into()); } }
+        if bulk && fill > 0 { let ids: Vec<u64> = (0..fill).map(|i| next_id + i).collect(); next_id += fill; coq_ops.push(format!("TQ (PushBulk {})", nlist(&ids)));
+            let items: Vec<El> = ids.iter().map(|&i| el(i)).collect(); q.push_bulk(&items).map_err(|e| format!("push_bulk refused: {:?}", e))?; shadow.extend(ids); }
+        else { for _ in 0..fill { let id = next_id; next_id += 1; coq_ops.push(format!("TQ (PushBack {})", id)); q.push_back(el(id)).map_err(|e| format!("push_back refused: {:?}", e))?; shadow.push_back(id); } }
+        let out_ids: Vec<u64> = (0..m).map(|i| next_id + i).collect(); next_id += m;
+        let mut out: Vec<El> = out_ids.iter().map(|&i| el(i)).collect();
+        take_drops();
+        let n = q.pop_bulk(&mut out);
+        let mut drops = take_drops(); drops.sort();
+        let got: Vec<u64> = out.iter().map(|e| e.id).collect();
+        let k = (m as usize).min(shadow.len());
+        let mut want: Vec<u64> = shadow.drain(..k).collect(); want.extend(out_ids[k..].iter().copied());
+        if n != k { return Err(format!("pop_bulk into {} slots with {} elements queued returned {}", m, k + shadow.len(), n)); }
+        if got != want { return Err(format!("the slice holds {:?} after pop_bulk, `out[i] = pop_front()` gives {:?}", got, want)); }
+        if drops != out_ids[..k] { return Err(format!("pop_bulk destroyed {:?}; the {} overwritten values of the slice are {:?} (each is dropped exactly once, nothing else)", drops, k, &out_ids[..k])); }
+        let st = q.performance_stats();
+        if q.len() != shadow.len() || q.front().map(|e| e.id) != shadow.front().copied() { return Err("len / front after pop_bulk differ from a VecDeque".into()); }
+        let mut e: Vec<i128> = vec![n as i128]; e.extend(got.iter().map(|&x| x as i128)); e.push(-7); e.extend(drops.iter().map(|&x| x as i128));
+        e.extend([-8, st.length as i128, st.capacity as i128, st.head_index as i128, st.tail_index as i128]);
+        drop(out); drop(q);
+        if let Some(p) = live_mismatch([].iter(), next_id) { return Err(format!("after Drop of the slice and the queue: {}", p)); }
+        Ok(zlist(&e))
+    });
+    match r {
+        Err(p) => cx.sum.fail(cell, None, cj, &format!("panicked: {}", p)),
+        Ok(Err(d)) => cx.sum.fail(cell, None, cj, &d),
+        Ok(Ok(e)) => if coq == Coq::Always || (coq == Coq::Budget && cx.room("AutoGrowCircularQueue/pop_bulk into a slice")) {
+            let out_ids: Vec<u64> = (next_id - m..next_id).collect();
+            cx.shards.push(format!("CRingInto {} [{}] {} {}", cap0, coq_ops.join("; "), nlist(&out_ids), e), cj); }
     }
 }
 
@@ -789,6 +838,13 @@ impl<T: Elem> VecApi<T> for CacheAlignedVec<T> {
         else { match self.as_mut_slice().get_mut(i) { Some(s) => { *s = x; R::Unit } None => R::Refused } } }
     fn aux(&self) -> Option<String> { if self.is_empty() != (CacheAlignedVec::len(self) == 0) || CacheAlignedVec::capacity(self) < CacheAlignedVec::len(self) { Some("is_empty / capacity disagree with len".into()) } else { None } }
     fn capacity(&self) -> usize { CacheAlignedVec::capacity(self) }
+    // mechanism model: coq/C10/ModelCacheVec.v (drop-counting elements and one-byte elements)
+    fn coq_cell() -> Option<&'static str> { if T::COUNTED { Some("CacheAlignedVec<El>") } else if std::mem::size_of::<T>() == 1 { Some("CacheAlignedVec<u8>") } else { None } }
+    fn coq_head(cap0: usize, _cap_init: usize) -> String { format!("CCav {} {} {}", T::COUNTED, std::mem::size_of::<T>(), cap0) }
+    fn coq_op(code: u64, a: usize, _b: usize, vals: &[u64], _cap_after: usize) -> Option<String> {
+        Some(match code { 0 => format!("APush {}", vals[0]), 1 => "APop".into(), 5 => "AClear".into(), 8 => format!("AReserve {}", a), 9 => format!("AGet {}", a),
+                          12 => format!("ATruncate {}", a), _ => return None })
+    }
 }
 struct Layout64(zipora::memory::cache_layout::CacheAlignedVec<u64>);
 impl VecApi<u64> for Layout64 {
@@ -825,6 +881,12 @@ impl VecApi<El> for Bump {
     fn write_alt(&mut self, i: usize, x: El, _variant: u64) -> R<El> { match self.0.as_mut_slice().get_mut(i) { Some(s) => { *s = x; R::Unit } None => R::Refused } }
     fn aux(&self) -> Option<String> { if self.0.capacity() != self.1 || self.0.is_empty() != (self.0.len() == 0) { Some(format!("capacity() = {} for a BumpVec of capacity {}", self.0.capacity(), self.1)) } else { None } }
     fn capacity(&self) -> usize { self.0.capacity() }
+    // mechanism model: coq/C10/ModelCacheVec.v
+    fn coq_cell() -> Option<&'static str> { Some("BumpVec<El>") }
+    fn coq_head(cap0: usize, _cap_init: usize) -> String { format!("CBump {}", cap0.max(1)) }
+    fn coq_op(code: u64, a: usize, _b: usize, vals: &[u64], _cap_after: usize) -> Option<String> {
+        Some(match code { 0 => format!("BPush {}", vals[0]), 1 => "BPop".into(), 9 => format!("BGet {}", a), _ => return None })
+    }
 }
 
 // ----- MmapVec -----
@@ -1585,6 +1647,55 @@ fn fixedlen_history(cx: &mut Ctx, n: u64, ops: &[Value], coq: Coq) {
               32 => fixedlen_history_n::<32>(cx, ops, coq), 64 => fixedlen_history_n::<64>(cx, ops, coq), _ => fixedlen_history_n::<300>(cx, ops, coq) }
 }
 
+/// BitPackedStringVec32 / 64 as histories of push / get / get_bytes / len (M+S: coq/C10/ModelBitPacked.v); find_simd and iter() are
+/// observed against the shadow only
+fn bitpacked_history(cx: &mut Ctx, w64: bool, ops: &[Value], coq: Coq) {
+    let cell: &'static str = if w64 { "BitPackedStringVec64" } else { "BitPackedStringVec32" };
+    cx.sum.eval(cell, &format!("bitpacked {} {:?}", w64, ops), ops.len() >= 3);
+    cx.sum.cell_status(cell, "M+S");
+    let cj = json!({"cell": "bitpacked", "cap": if w64 { 64 } else { 32 }, "ops": ops});
+    if journal(&cj) { return; }
+    macro_rules! go { ($ty:ty) => {{
+        guarded(|| -> Result<(Vec<String>, Vec<String>), String> {
+            let mut v: $ty = match ops.len() % 3 { 0 => <$ty>::new(), 1 => <$ty>::with_capacity(ops.len()), _ => Default::default() };
+            let mut want: Vec<String> = vec![];
+            let mut coq_ops: Vec<String> = vec![]; let mut expect: Vec<String> = vec![];
+            for o in ops {
+                let code = o[0].as_u64().unwrap_or(0);
+                let i = o[1].as_u64().unwrap_or(0) as usize;
+                let mut e: Vec<i128> = vec![];
+                match code {
+                    0 => { let st = sop_str(o);
+                           match v.push(&st) { Ok(k) => { if k != want.len() { return Err(format!("push returned index {}, a Vec<String> holds {} strings", k, want.len())); } want.push(st); e = vec![7, k as i128]; }
+                                               Err(_) => { if st.len() < (1 << 24) { return Err(format!("push of a {}-byte string refused", st.len())); } e = vec![-1]; } }
+                           coq_ops.push(format!("PPush {}", sop_coq_str(o))); }
+                    1 => { let g = v.get(i).map(|x| x.to_string()); if g != want.get(i).cloned() { return Err(format!("get({}) = {:?}, a Vec<String> holds {:?}", i, g, want.get(i))); }
+                           match &g { None => e = vec![1], Some(x) => { e = vec![2]; enc_str(&mut e, x.as_bytes()); } } coq_ops.push(format!("PGet {}", i)); }
+                    2 => { let g = v.get_bytes(i).map(|x| x.to_vec()); if g.as_deref() != want.get(i).map(|x| x.as_bytes()) { return Err(format!("get_bytes({}) = {:?}, a Vec<String> holds {:?}", i, g, want.get(i))); }
+                           match &g { None => e = vec![1], Some(x) => { e = vec![2]; enc_str(&mut e, x); } } coq_ops.push(format!("PGetBytes {}", i)); }
+                    3 => { if v.len() != want.len() || v.is_empty() != want.is_empty() { return Err(format!("len() = {}, a Vec<String> holds {}", v.len(), want.len())); } e = vec![4, v.len() as i128]; coq_ops.push("PLen".into()); }
+                    4 => { let st = sop_str(o); let g = v.find_simd(&st); let w = want.iter().position(|x| *x == st);
+                           if g != w { return Err(format!("find_simd({:?}) = {:?}, the first occurrence is {:?}", st, g, w)); } }
+                    _ => { let g: Vec<String> = v.iter().map(|x| x.to_string()).collect(); if g != want { return Err(format!("iter() yields {} strings, a Vec<String> holds {}", g.len(), want.len())); } }
+                }
+                let n = want.len();
+                if v.len() != n { return Err(format!("after op {:?}: len() = {}, a Vec<String> holds {}", o[0], v.len(), n)); }
+                for j in [0usize, n / 2, n.wrapping_sub(1)] { if j < n && v.get(j) != Some(want[j].as_str()) { return Err(format!("after op {:?}: get({}) = {:?}, pushed {:?}", o[0], j, v.get(j), want[j])); } }
+                if v.get(n).is_some() || v.get_bytes(n + 1).is_some() { return Err("get past the end was not refused".into()); }
+                if !e.is_empty() { expect.push(zlist(&e)); }
+            }
+            Ok((coq_ops, expect))
+        })
+    }} }
+    let r = if w64 { go!(BitPackedStringVec64) } else { go!(BitPackedStringVec32) };
+    match r {
+        Err(p) => cx.sum.fail(cell, None, cj, &format!("panicked: {}", p)),
+        Ok(Err(d)) => cx.sum.fail(cell, None, cj, &d),
+        Ok(Ok((coq_ops, expect))) => if coq == Coq::Always || (coq == Coq::Budget && cx.room(cell)) {
+            cx.shards.push(format!("CBitP {} [{}] [{}]", w64, coq_ops.join("; "), expect.join("; ")), cj); }
+    }
+}
+
 /// FixedLenStrVec at the 24-bit arena limit (oracle only: 65 793 pushes of 255 bytes fill the arena to 2^24 - 1 bytes)
 fn fixedlen_limit(cx: &mut Ctx) {
     let cell = "FixedLenStrVec<300>";
@@ -1762,6 +1873,8 @@ fn run_one(cx: &mut Ctx, c: &Value, args: &Args) {
         "fastvec_probe" => fastvec_probe(cx, args, c["mode"].as_u64().unwrap_or(0)),
         "strvec" => strvec_history(cx, c["ops"].as_array().map(|a| a.as_slice()).unwrap_or(&[]), Coq::Always),
         "fixedlen" => fixedlen_history(cx, cap, c["ops"].as_array().map(|a| a.as_slice()).unwrap_or(&[]), Coq::Always),
+        "ring_into" => ring_into_case(cx, cap, c["rot"].as_u64().unwrap_or(0), c["fill"].as_u64().unwrap_or(0), c["bulk"].as_bool().unwrap_or(false), c["m"].as_u64().unwrap_or(0), Coq::Always),
+        "bitpacked" => bitpacked_history(cx, cap == 64, c["ops"].as_array().map(|a| a.as_slice()).unwrap_or(&[]), Coq::Always),
         "fixedlen_limit" => fixedlen_limit(cx),
         "str" => { let strs: Vec<String> = c["strs"].as_array().map(|a| a.iter().map(|s| s.as_str().unwrap_or("").to_string()).collect()).unwrap_or_default();
                    str_case(cx, c["kind"].as_u64().unwrap_or(0), &strs, c["mode"].as_u64().unwrap_or(0)) }
@@ -1785,7 +1898,9 @@ fn run_inner(args: &Args) {
     // shares of the Coq budget (quick: 1500 cases in total), per M+S cell
     let k = if args.thorough { 6 } else { 1 };
     for (c, n) in [("AutoGrowCircularQueue", 750), ("FixedCircularQueue", 100), ("FastVec<El>", 150), ("ValVec32<El>", 120), ("ValVec32<u64>", 80),
-                   ("FastVec<u64>", 80), ("FastVec<u8>", 80), ("SortableStrVec", 80), ("FixedLenStrVec", 60)] {
+                   ("FastVec<u64>", 80), ("FastVec<u8>", 80), ("SortableStrVec", 80), ("FixedLenStrVec", 60),
+                   ("CacheAlignedVec<El>", 40), ("CacheAlignedVec<u8>", 30), ("BumpVec<El>", 30),
+                   ("BitPackedStringVec32", 30), ("BitPackedStringVec64", 30), ("AutoGrowCircularQueue/pop_bulk into a slice", 40)] {
         cx.budgets.insert(c, (0, n * k));
     }
     for c in ["AutoGrowCircularQueue", "FixedCircularQueue", "FastVec<El>"] { cx.sum.cell_status(c, "M+S"); }
@@ -1826,6 +1941,13 @@ fn run_inner(args: &Args) {
         }
     }
     cx.sum.dist_max("enumerated_ring_histories", cx.sum.evaluations);
+    // pop_bulk into a slice of identified values: every head offset, fill level and slice length on capacities 2 and 4 (+ growth), both ways of filling
+    let mut into_n = 0u64;
+    for cap0 in [2u64, 4, 8] { for rot in 0..=cap0 { for fill in 0..=cap0 + 1 { for m in [0, 1, 2, cap0 - 1, cap0, cap0 + 2] { for bulk in [false, true] {
+        if m == 0 && bulk { continue; }
+        into_n += 1;
+        ring_into_case(&mut cx, cap0, rot, fill, bulk, m, if into_n % 35 == 0 || args.thorough { Coq::Budget } else { Coq::Never });
+    } } } } }
     let rounds = if args.thorough { 12000 } else { 700 };
     let vec_all: [u64; 11] = [0, 1, 2, 3, 4, 5, 6, 7, 8, 9, 10];
     for i in 0..rounds {
@@ -1869,6 +1991,8 @@ fn run_inner(args: &Args) {
             let n = [4u64, 8, 16, 300, 32, 64][((i / 3) % 6) as usize];
             let ops = gen_str_ops(&mut rng, Some(n as usize));
             fixedlen_history(&mut cx, n, &ops, Coq::Budget);
+            let ops = gen_str_ops(&mut rng, Some(300));
+            bitpacked_history(&mut cx, (i / 3) % 2 == 0, &ops, Coq::Budget);
         }
         let kind = i % STR_KINDS;
         let strs = gen_strings(&mut rng, kind);
